@@ -727,3 +727,25 @@ Definition prog_of (progs : list (string * hprog)) (name : string) : hprog :=
   end.
 
 Definition handler_names : list string := map fst ref_programs.
+
+(* ------------------------------------------------------------------ the whole handler from programs *)
+(* [handler] of Model/Session.v with every body replaced by the denotation of its program *)
+Definition prog_body (users : list user) (progs : list (string * hprog))
+           (self : string -> text -> dataact -> bool -> world -> result)
+           (name : string) (arg : text) (d : dataact) (appe : bool) (w : world) : result :=
+  match run_handler_prog users self (prog_of progs name) arg d appe w with
+  | Some r => r
+  | None => (w, mk_out [], true)
+  end.
+
+Fixpoint handler_prog (users : list user) (table : list (string * (string * list deco * option string)))
+         (progs : list (string * hprog)) (fuel : nat)
+         (name : string) (arg : text) (d : dataact) (appe : bool) (w : world) : result :=
+  match fuel with
+  | O => (w, mk_out [], true)
+  | S f =>
+      match handler_of table name with
+      | None => (w, mk_out [], true)
+      | Some (ds, _) => run_decos users ds arg w (prog_body users progs (handler_prog users table progs f) name arg d appe)
+      end
+  end.
